@@ -229,6 +229,357 @@ def coq_align_case(c, o):
         line_in, qlit(Fraction(off)), line_out)
 
 
+
+# -------------------------------------------------------------------------------------- render monitor
+OBJ = '￼'          # stands for an inline-block in line / source texts
+EPS = 1e-3
+
+
+def gen_inline(rng, cfg, depth, budget):
+    """returns (html, processed-source tokens) where tokens is a list of ('w', word) | ('s',) | ('n',) | ('o',)"""
+    html, toks = '', []
+    n = rng.choice([1, 2, 3, 5, 8]) if depth else budget
+    for k in range(n):
+        if k:
+            if cfg['pre'] and rng.random() < 0.12:
+                html += '\n'; toks.append(('n',))
+            else:
+                html += ' '; toks.append(('s',))
+        r = rng.random()
+        if r < cfg['p_span'] and depth < 2:
+            st = []
+            for side in (('left', 'right') if cfg['leftdeco'] else ('right',)):
+                if rng.random() < 0.6:
+                    st.append('padding-%s:%dpx' % (side, rng.choice([1, 2, 5, 10, 20])))
+                if rng.random() < 0.4:
+                    st.append('border-%s:%dpx solid' % (side, rng.choice([1, 2, 4])))
+                if rng.random() < 0.4:
+                    st.append('margin-%s:%dpx' % (side, rng.choice([1, 3, 7, 15])))
+            if cfg['mixed'] and rng.random() < 0.5:
+                st.append('font-size:%dpx' % rng.choice(SIZES))
+            h, t = gen_inline(rng, cfg, depth + 1, 0)
+            html += '<span style="%s">%s</span>' % (';'.join(st), h)
+            toks += t
+        elif r < cfg['p_span'] + cfg['p_ib']:
+            html += '<span style="display:inline-block;width:%dpx;height:%dpx"></span>' % (
+                rng.choice([5, 10, 20, 40, 100]), rng.choice([1, 5, 10, 30]))
+            toks.append(('o',))
+        else:
+            wd = ''.join(rng.choice(LET) for _ in range(rng.choice(cfg['lens'])))
+            if cfg['shy'] and len(wd) > 1 and rng.random() < 0.3:
+                j = rng.randint(1, len(wd) - 1)
+                html += wd[:j] + '&shy;' + wd[j:]
+                wd = wd[:j] + SHY + wd[j:]
+            else:
+                html += wd
+            toks.append(('w', wd))
+    return html, toks
+
+
+def gen_render_case(rng, idx):
+    fs = rng.choice(SIZES)
+    ws = rng.choice(['normal'] * 5 + ['nowrap', 'pre', 'pre-wrap', 'pre-line'])
+    ow = rng.choice(['normal'] * 4 + ['anywhere', 'break-word'])
+    wb = rng.choice(['normal'] * 5 + ['break-all'])
+    ta = rng.choice(['left', 'left', 'right', 'center', 'justify', 'start', 'end'])
+    rtl = rng.random() < 0.1
+    cfg = dict(pre=ws in ('pre', 'pre-wrap', 'pre-line'), p_span=rng.choice([0, 0, 0.15, 0.3]),
+               p_ib=rng.choice([0, 0, 0.1]), leftdeco=rng.random() < 0.3, mixed=rng.random() < 0.15, shy=rng.random() < 0.12,
+               lens=rng.choice([[1, 2, 3], [1, 2, 3, 5, 8], [3, 5, 8, 13], [1, 30], [1, 2, 3, 5, 8, 13, 21, 30]]))
+    nwords = rng.choice([1, 2, 3, 5, 8, 13, 21, 40, 80, 150, 400])
+    if cfg['p_span']:
+        nwords = min(nwords, 40)
+    if rng.random() < 0.9:
+        nwords = min(nwords, 40)
+    em = rng.choice([0, 1, 2, 3, 4, 5, 8, 10, 15, 20, 30, 45, 60])
+    width = fs * em + rng.choice([0, 0, 0, 1, -1, 0.5, 0.25])
+    width = max(0, width)
+    if (wb == 'break-all' or ow != 'normal') and em < 4:
+        nwords = min(nwords, 8)         # one character per line: the implementation is quadratic there
+    indent = rng.choice([0, 0, 0, 0, fs, 3 * fs, 25, -5]) if not rtl else 0
+    flt = None
+    if rng.random() < 0.08 and not rtl:
+        flt = dict(side=rng.choice(['left', 'right']), w=rng.choice([10, 30, int(width / 2), int(width)]),
+                   h=rng.choice([5, fs, 3 * fs, 50]))
+    body, toks = gen_inline(rng, cfg, 0, nwords)
+    style = ('font-size:%dpx;white-space:%s;overflow-wrap:%s;word-break:%s;hyphens:manual;text-align:%s;'
+             'text-indent:%spx;direction:%s' % (fs, ws, ow, wb, ta, indent, 'rtl' if rtl else 'ltr'))
+    html = ('<style>@page{size:3000px 200000px;margin:0}body{margin:0;font-family:weasyprint;line-height:1}</style>'
+            '<div style="width:%spx">%s<div id="p%d" style="%s">%s</div></div>' % (
+                width, ('<div style="float:%s;width:%dpx;height:%dpx"></div>' % (flt['side'], flt['w'], flt['h'])) if flt else '',
+                idx, style, body))
+    return dict(html=html, toks=toks, fs=fs, ws=ws, ow=ow, wb=wb, ta=ta, rtl=rtl, width=width, indent=indent, flt=flt,
+                mixed=cfg['mixed'], shy=cfg['shy'], spans=cfg['p_span'] > 0,
+                leftdeco=cfg['leftdeco'] and cfg['p_span'] > 0)
+
+
+def source_text(toks, ws):
+    """the white-space-processed text of the paragraph"""
+    out = ''
+    for t in toks:
+        out += t[1] if t[0] == 'w' else ' ' if t[0] == 's' else OBJ if t[0] == 'o' else \
+            ('\n' if ws in ('pre', 'pre-wrap', 'pre-line') else ' ')
+    return out
+
+
+def line_string(line):
+    s = ''
+    for it in line['items']:
+        if it['kind'] == 'text':
+            s += it['text']
+        elif it['kind'] == 'atomic':
+            s += OBJ
+    return s
+
+
+def mbw(it):
+    return it['ml'] + it['bl'] + it['pl'] + it['w'] + it['pr'] + it['br'] + it['mr']
+
+
+def first_break_x(line):
+    """x of the first break opportunity strictly inside the content of the line (None when the line is one
+    unbreakable unit): the start of the first space that has visible content before and after it, or an
+    inline-block boundary with content on both sides"""
+    items = [it for it in line['items'] if it['kind'] in ('text', 'atomic')]
+    # visible content units in order: (kind, x_start, x_end)
+    seq = []
+    for it in items:
+        if it['kind'] == 'atomic':
+            seq.append(('o', it['x'], it['x'] + mbw(it)))
+        else:
+            nsp = 0
+            for k, ch in enumerate(it['text']):
+                x0 = it['x'] + k * it['fs'] + nsp * it['js']
+                if ch == ' ' or ch == '\u00a0':
+                    if ch == ' ':
+                        seq.append(('s', x0, x0 + it['fs'] + it['js']))
+                    else:
+                        seq.append(('c', x0, x0 + it['fs'] + it['js']))
+                    nsp += 1
+                elif ch == '\n' or ch == SHY:
+                    continue
+                else:
+                    seq.append(('c', x0, x0 + it['fs']))
+    while seq and seq[-1][0] == 's':
+        seq.pop()
+    seen = False
+    for k, (kind, x0, x1) in enumerate(seq):
+        if kind == 's':
+            if seen:
+                return x0
+        elif kind == 'o':
+            if seen:
+                return x0
+            seen = True
+            if k + 1 < len(seq):
+                return x1
+        else:
+            seen = True
+    return None
+
+
+def judge_render(case, paras):
+    """list of (clause, detail) violated by the rendered paragraph"""
+    bad = []
+    neg_avail = False
+    if len(paras) != 1:
+        return [('paragraph-rendered-once', len(paras))]
+    P = paras[0]
+    lines = P['lines']
+    ws, fs = case['ws'], case['fs']
+    wrap = ws in ('normal', 'pre-wrap', 'pre-line')
+    collapse = ws in ('normal', 'nowrap', 'pre-line')
+    can_break = case['wb'] == 'break-all' or case['ow'] in ('anywhere', 'break-word')
+    S = source_text(case['toks'], ws)
+    left, right = P['x'], P['x'] + P['w']
+    simple = case['flt'] is None
+    # -- (c) the lines' texts cover the source once; what separates two lines
+    pos, seps = 0, []
+    for i, ln in enumerate(lines):
+        t = line_string(ln)
+        hyph = False
+        if t.endswith(SHY + HY):
+            t, hyph = t[:-1], True
+        elif t.endswith(HY) and not S.startswith(t, pos):
+            t, hyph = t[:-1], True
+        t_cmp = t.rstrip(' ') if collapse else t
+        if collapse and not S.startswith(t_cmp, pos):
+            # tolerate (and report separately) single spaces of the source missing inside the line
+            j, k2, dropped = pos, 0, 0
+            while k2 < len(t_cmp) and j < len(S):
+                if S[j] == t_cmp[k2]:
+                    j += 1; k2 += 1
+                elif S[j] == ' ' and j + 1 < len(S) and S[j + 1] == t_cmp[k2]:
+                    j += 1; dropped += 1
+                else:
+                    break
+            if k2 == len(t_cmp) and dropped:
+                bad.append(('space-dropped-inside-line', 'line %d %r: %d space(s) of the source missing' % (i, t, dropped)))
+                t_cmp = S[pos:j]
+        if not S.startswith(t_cmp, pos):
+            bad.append(('lines-cover-text', 'line %d %r does not continue the source at %d (%r)' % (i, t, pos, S[pos:pos + 40])))
+            break
+        pos += len(t_cmp)
+        k = pos
+        while collapse and k < len(S) and S[k] == ' ':
+            k += 1
+        if not collapse:
+            # preserved spaces hang at the end of the line they follow (already part of t)
+            pass
+        sep = 'space' if k > pos else 'none'
+        if k < len(S) and S[k] == '\n':
+            k += 1
+            sep = 'nl'
+            while collapse and k < len(S) and S[k] == ' ':
+                k += 1
+        seps.append((sep, hyph, t))
+        pos = k
+    else:
+        if pos != len(S):
+            bad.append(('lines-cover-text', 'source not exhausted: %r left' % S[pos:pos + 40]))
+    if any(b[0] == 'lines-cover-text' for b in bad):
+        return bad
+    # -- per line
+    for i, ln in enumerate(lines):
+        sep, hyph, t = seps[i]
+        last = i == len(lines) - 1
+        avail = P['w']
+        if i == 0 and case['indent'] > avail and can_break:
+            neg_avail = True
+        width = ln['w']
+        units = first_break_x(ln) is not None
+        tcontent = t.strip(' ')
+        # (a) no overflow unless one unbreakable unit (one character when words may be broken)
+        hang = 0
+        if not collapse:
+            tbs = [it for it in ln['items'] if it['kind'] == 'text' and it['text']]
+            if tbs:
+                tt = tbs[-1]['text'].rstrip('\n')
+                hang = (len(tt) - len(tt.rstrip(' '))) * tbs[-1]['fs']
+        if simple and wrap and width - hang > avail + EPS:
+            one_unit = not units
+            if can_break:
+                one_unit = one_unit and len(tcontent.replace(SHY, '')) <= 1
+            if not one_unit:
+                bad.append(('no-overflow-unless-one-unit', 'line %d %r width %s > %s' % (i, t, width, avail)))
+        # (c') allowed break opportunities
+        if not last:
+            if not wrap and sep != 'nl':
+                bad.append(('break-only-at-opportunities', 'line %d broken under white-space:%s' % (i, ws)))
+            if sep == 'nl' and ws in ('normal', 'nowrap'):
+                bad.append(('break-only-at-opportunities', 'newline break under %s' % ws))
+            if wrap and sep == 'none':
+                nxt = line_string(lines[i + 1])
+                at_obj = t.endswith(OBJ) or nxt.startswith(OBJ)
+                pre_space = (not collapse) and t.endswith(' ')
+                if not (hyph or at_obj or pre_space or can_break):
+                    bad.append(('break-only-at-opportunities', 'line %d %r | %r broken inside a word' % (i, t, nxt[:20])))
+                if can_break and not (hyph or at_obj or pre_space):
+                    # breaking inside a word only when needed: the unit did not fit on a line of its own
+                    pass
+        # (b) greedy: the first unit of the next line would not have fitted
+        if simple and wrap and not last and sep in ('space', 'none') and case['ta'] != 'justify' and not case['rtl']:
+            nl_ = lines[i + 1]
+            fb = first_break_x(nl_)
+            extent = (fb - nl_['x']) if fb is not None else nl_['w']
+            gap = 0
+            if sep == 'space':
+                sizes = [it['fs'] for it in ln['items'] if it['kind'] == 'text'][-1:] + \
+                        [it['fs'] for it in nl_['items'] if it['kind'] == 'text'][:1]
+                gap = min(sizes) if sizes else 0
+                if not collapse:
+                    gap = 0      # the preserved space is already on this line
+            w_used = width
+            if w_used + gap + extent <= avail - EPS and not (can_break and sep == 'none' and not hyph):
+                bad.append(('greedy', 'line %d %r (%s of %s): next unit of extent %s would fit' % (i, t, w_used, avail, extent)))
+        # (e) inside the block after alignment
+        if simple and width <= avail + EPS:
+            if ln['x'] < left - EPS or ln['x'] + width > right + EPS:
+                bad.append(('line-inside-block', 'line %d x=%s w=%s block %s..%s' % (i, ln['x'], width, left, right)))
+            ta = case['ta']
+            if case['rtl']:
+                ta = {'start': 'right', 'end': 'left'}.get(ta, ta)
+            else:
+                ta = {'start': 'left', 'end': 'right'}.get(ta, ta)
+            lastish = last or sep == 'nl'
+            if ta == 'justify' and (lastish or not collapse):
+                ta = 'right' if case['rtl'] else 'left'
+            if ta == 'left' and abs(ln['x'] - left) > EPS:
+                bad.append(('text-align', 'left: line %d at %s' % (i, ln['x'])))
+            if ta == 'right' and abs(ln['x'] + width - right) > EPS:
+                bad.append(('text-align', 'right: line %d ends at %s' % (i, ln['x'] + width)))
+            if ta == 'center' and abs((ln['x'] - left) - (right - ln['x'] - width)) > EPS:
+                bad.append(('text-align', 'center: line %d at %s w %s' % (i, ln['x'], width)))
+            if ta == 'justify' and ' ' in tcontent and abs(width - avail) > EPS:
+                bad.append(('justify-fills', 'line %d %r width %s of %s' % (i, t, width, avail)))
+        # (d) extents add up (ltr)
+        if not case['rtl']:
+            x = ln['x'] + (case['indent'] if i == 0 else 0)
+            tot = (case['indent'] if i == 0 else 0)
+            stack = []      # (remaining kids, end x expected)
+            items = ln['items']
+            def walk(k, x0, depth):
+                xx = x0
+                while k < len(items) and items[k]['depth'] == depth:
+                    it = items[k]
+                    if it['kind'] in ('float', 'abs'):
+                        k += 1 + it.get('span', 0)
+                        continue
+                    if abs(it['x'] - xx) > EPS:
+                        bad.append(('extents-add-up', 'line %d item %d (%s) at %s, expected %s' % (i, k, it['kind'], it['x'], xx)))
+                        return None, None
+                    if it['kind'] == 'inline':
+                        inner = it['x'] + it['ml'] + it['bl'] + it['pl']
+                        k2, end = walk(k + 1, inner, depth + 1)
+                        if k2 is None:
+                            return None, None
+                        if abs(end - (inner + it['w'])) > EPS:
+                            bad.append(('extents-add-up', 'line %d inline box %d content %s..%s but width %s' % (i, k, inner, end, it['w'])))
+                            return None, None
+                        k = k2
+                    else:
+                        k += 1
+                    xx += mbw(it)
+                return k, xx
+            k, end = walk(0, x, 0)
+            if k is not None and abs(end - (ln['x'] + width)) > EPS:
+                bad.append(('extents-add-up', 'line %d children end at %s, line box at %s' % (i, end, ln['x'] + width)))
+        # (f) stacking
+        if simple and i + 1 < len(lines):
+            if abs(lines[i + 1]['y'] - (ln['y'] + ln['h'])) > EPS:
+                bad.append(('lines-stack', 'line %d y=%s h=%s, next at %s' % (i, ln['y'], ln['h'], lines[i + 1]['y'])))
+        if simple and i == 0 and abs(ln['y'] - P['y']) > EPS:
+            bad.append(('lines-stack', 'first line at %s, block content at %s' % (ln['y'], P['y'])))
+        if simple and not case['mixed'] and not any(it['kind'] == 'atomic' for it in ln['items']) \
+                and abs(ln['h'] - fs) > EPS and any(it['kind'] == 'text' for it in ln['items']):
+            bad.append(('lines-stack', 'line %d height %s with line-height %s' % (i, ln['h'], fs)))
+    if not case['flt'] is None:
+        # floats before the paragraph: lines do not overlap the float and stay inside the block
+        f = case['flt']
+        for i, ln in enumerate(lines):
+            if ln['y'] < f['h'] - EPS and ln['w'] > 0:
+                lo, hi = (left + f['w'], right) if f['side'] == 'left' else (left, right - f['w'])
+                if ln['w'] <= hi - lo + EPS and (ln['x'] < lo - EPS or ln['x'] + ln['w'] > hi + EPS):
+                    bad.append(('line-beside-float', 'line %d x=%s w=%s free %s..%s' % (i, ln['x'], ln['w'], lo, hi)))
+    return bad
+
+
+
+def classify_render(case, clause, detail):
+    """signature of a known mechanism (None: unexplained)"""
+    can_break = case['wb'] == 'break-all' or case['ow'] in ('anywhere', 'break-word')
+    if case['shy']:
+        return 'render-soft-hyphen-paragraph'
+    if clause == 'space-dropped-inside-line':
+        return 'text-box-trailing-space-dropped-mid-line'
+    if case['leftdeco'] and clause in ('no-overflow-unless-one-unit', 'greedy', 'line-inside-block', 'text-align',
+                                       'justify-fills', 'line-beside-float'):
+        return 'inline-start-spacing-ignored-in-line-fitting'
+    if can_break and case['indent'] > case['width'] and clause in ('no-overflow-unless-one-unit', 'greedy'):
+        return 'sfl-negative-width-no-wrap-when-breaking-inside-words'
+    return None
+
+
 # ------------------------------------------------------------------------------------------------ check
 
 def check(run):
